@@ -1,6 +1,7 @@
 import struct
 import logging
 import os
+import re
 from datetime import datetime
 from enum import Enum
 from random import Random
@@ -341,6 +342,18 @@ class TerminalDevice(Device):
 
             converted = []
             for v, vtype in reversed(list(zip(values, var_types))):
+                # int() and float() also accept spellings that are not
+                # numbers in BASIC ("1_0", "nan", "inf", non-ASCII
+                # digits); check the shape of the text first.
+                if vtype in (1, 2) and \
+                   not re.fullmatch(r'[+-]?[0-9]+', v):
+                    return False
+                if vtype in (3, 4) and \
+                   not re.fullmatch(
+                       r'[+-]?([0-9]+\.?[0-9]*|\.[0-9]+)([eE][+-]?[0-9]+)?',
+                       v):
+                    return False
+
                 if vtype == 1:  # INTEGER
                     try:
                         v = int(v)
